@@ -337,6 +337,18 @@ func run(r *rand.Rand, caseNo int) (hx.M, error) {
 			}
 		}
 	}
+	// sometimes a unique constraint added to an existing field (its three stored values are distinct)
+	addedUniq := ""
+	if addedIdx == "" && r.Intn(4) == 0 {
+		for i := range v2 {
+			t := v2[i].Type
+			if v2[i].Idx == "" && len(v2[i].Tags) == 0 && !strings.Contains(v2[i].Col, " ") && (t == "int64" || t == "int32" || t == "uint" || t == "string") {
+				v2[i].Tags = []string{"unique"}
+				addedUniq = v2[i].Col
+				break
+			}
+		}
+	}
 	var added []fdef
 	for i := 0; i < 1+r.Intn(2); i++ {
 		f := randField(r, i, "B")
@@ -456,7 +468,23 @@ func run(r *rand.Rand, caseNo int) (hx.M, error) {
 			want = append(want, hx.M{"name": "idx_comp", "unique": false, "partial": false})
 		}
 	}
+	// columns the model declares unique, and those the final schema reports as unique
+	wantU, finalU := []string{}, []string{}
+	for _, f := range v2 {
+		for _, t := range f.Tags {
+			if t == "unique" {
+				wantU = append(wantU, f.Col)
+			}
+		}
+	}
 	rec.SetRecording(false)
+	if cts, err := db.Table(table).Migrator().ColumnTypes(reflect.New(t2).Interface()); err == nil {
+		for _, ct := range cts {
+			if u, ok := ct.Unique(); ok && u {
+				finalU = append(finalU, ct.Name())
+			}
+		}
+	}
 	if rows, err := sqldb.Query("SELECT name, sql FROM sqlite_master WHERE type = 'index' AND tbl_name = ? AND sql IS NOT NULL", table); err == nil {
 		for rows.Next() {
 			var name, ddl string
@@ -468,7 +496,8 @@ func run(r *rand.Rand, caseNo int) (hx.M, error) {
 		rows.Close()
 	}
 	return hx.M{"ev": "Mig", "case": caseNo, "table": table, "v1": mj(v1), "added": mj(added), "added_index_on": addedIdx, "steps": steps, "accept": accept,
-		"want_indexes": want, "final_indexes": final, "reltables": []string{}, "fk": false}, nil
+		"want_indexes": want, "final_indexes": final, "reltables": []string{}, "fk": false,
+		"added_unique_on": addedUniq, "want_unique": wantU, "final_unique": finalU}, nil
 }
 
 func eq(a, b interface{}) bool {
@@ -575,7 +604,8 @@ func runRel(r *rand.Rand, caseNo int) (hx.M, error) {
 		return out
 	}
 	return hx.M{"ev": "Mig", "case": caseNo, "table": "mrel", "v1": fields("a"), "added": fields("b", "owner_id"), "added_index_on": "", "steps": steps, "accept": accept,
-		"want_indexes": []hx.M{}, "final_indexes": []hx.M{}, "reltables": []string{"m_owners", "m_tags", "mrel_tags"}, "fk": !noFK}, nil
+		"want_indexes": []hx.M{}, "final_indexes": []hx.M{}, "reltables": []string{"m_owners", "m_tags", "mrel_tags"}, "fk": !noFK,
+		"added_unique_on": "", "want_unique": []string{}, "final_unique": []string{}}, nil
 }
 
 func random(args []string) error {
